@@ -23,49 +23,55 @@ pub fn features(n: &LN) -> Vec<String> {
     fs
 }
 
-/// the text of a lexical value, after every public formatting route was required to print the same: `format_narsese`,
-/// the per-kind method, the generic `format` entry point and the `FormatTo` trait on the bare value and on the wrapper
-pub fn format_all_routes(f: &F, x2: &LN) -> Result<String, String> {
+/// The texts all public formatting routes print for a lexical value, without repetitions (the first is
+/// `format_narsese`'s): the per-kind method, the generic `format` entry point and the `FormatTo` trait on the bare
+/// value and on the wrapper. Every one of them is "the formatted value" and is checked.
+pub fn format_routes(f: &F, x2: &LN) -> Vec<String> {
     use narsese::api::FormatTo;
-    let s = f.l.format_narsese(x2);
-    let s2 = match x2 {
-        LN::Term(t) => f.l.format_term(t),
-        LN::Sentence(s) => f.l.format_sentence(s),
-        LN::Task(t) => f.l.format_task(t),
+    let mut out = vec![f.l.format_narsese(x2)];
+    let mut add = |s: String| {
+        if !out.contains(&s) {
+            out.push(s);
+        }
     };
-    if s != s2 {
-        return Err(format!("format_narsese gives {s:?}, the per-kind formatter {s2:?}"));
+    add(f.l.format(x2));
+    add(x2.format_to(f.l));
+    match x2 {
+        LN::Term(t) => {
+            add(f.l.format_term(t));
+            add(f.l.format(t));
+            add(t.format_to(f.l));
+        }
+        LN::Sentence(s) => {
+            add(f.l.format_sentence(s));
+            add(f.l.format(s));
+            add(s.format_to(f.l));
+        }
+        LN::Task(t) => {
+            add(f.l.format_task(t));
+            add(f.l.format(t));
+            add(t.format_to(f.l));
+        }
     }
-    let (s3, s4) = match x2 {
-        LN::Term(t) => (f.l.format(t), t.format_to(f.l)),
-        LN::Sentence(s) => (f.l.format(s), s.format_to(f.l)),
-        LN::Task(t) => (f.l.format(t), t.format_to(f.l)),
-    };
-    if s != s3 || s != s4 {
-        return Err(format!("format_narsese gives {s:?}, the FormatTo route {s3:?} / {s4:?}"));
-    }
-    let (s5, s6) = (f.l.format(x2), x2.format_to(f.l));
-    if s != s5 || s != s6 {
-        return Err(format!("format_narsese gives {s:?}, the FormatTo route on the wrapped value {s5:?} / {s6:?}"));
-    }
-    Ok(s)
+    out
 }
 
 pub fn case(f: &F, x: &LN) -> Result<String, String> {
     let f = *f;
     let x2 = x.clone();
     match quiet_catch(std::panic::AssertUnwindSafe(move || {
-        let s = format_all_routes(&f, &x2)?;
-        match f.l.parse(&s) {
-            Err(e) => Err(format!("parse of the formatted text {s:?} failed: {e}")),
-            Ok(y) => {
-                if y == x2 {
-                    Ok(s)
-                } else {
-                    Err(format!("formatted text {s:?} parses to {y:?} instead of {x2:?}"))
+        let texts = format_routes(&f, &x2);
+        for s in &texts {
+            match f.l.parse(s) {
+                Err(e) => return Err(format!("parse of the formatted text {s:?} failed: {e}")),
+                Ok(y) => {
+                    if y != x2 {
+                        return Err(format!("formatted text {s:?} parses to {y:?} instead of {x2:?}"));
+                    }
                 }
             }
         }
+        Ok(texts.into_iter().next().unwrap_or_default())
     })) {
         Ok(r) => r,
         Err(p) => Err(format!("panic: {p}")),
